@@ -13,7 +13,7 @@ COQ_IMPORTS = 'From Bac Require Import Base Prio.'
 RULE = ('cases: a history = constructor arguments + a list of ops (write v / relinquish at priority p or without priority, '
         'p also from {0,-1,17,255,300}; clock advance dt) run on a fresh object of one of the 20 ...CmdObject classes, '
         'through direct WriteProperty or through WritePropertyRequest/ReadPropertyRequest over a vlan; after every op the '
-        'result code, presentValue, the pending MinOnOffTask deadline and all 16 slots are compared with the model. '
+        'result code, presentValue, the pending MinOnOffTask deadline and all 16 slots (packed base 8 into one number) are compared with the model. '
         'Exhaustive: every sequence of length <= 2 over priorities {1,8,16,none} x 3 values x {write,relinquish} per class; '
         'random length-100 sequences over all 16 priorities per class and path; binary classes with minimum on/off times '
         '0..10 s and clock advances 0..12 s.  non-trivial = at least one accepted command; distinct by (class, path, '
@@ -313,6 +313,13 @@ class Driver:
 # ---- histories ----------------------------------------------------------------------------------
 # a history: dict(cls, path, pv, dflt, on, off, ops) with ops = [('c', prio|None, code|None) | ('t', dt)]
 
+def pack(obs):
+    """[presentValue, timer, the 16 slot codes as base-8 digits of one number] (Prio.observe_packed)"""
+    if len(obs) != 18:
+        return list(obs[:2]) + [-1]
+    return [obs[0], obs[1], sum((0 if c == -1 else c + 1 if 0 <= c < 6 else 7) * 8 ** i for i, c in enumerate(obs[2:]))]
+
+
 def run_history(h, upto=None):
     """implementation trace in the model's canonical form (Prio.trace_from)"""
     try:
@@ -321,10 +328,10 @@ def run_history(h, upto=None):
         del env()['tm'].tasks[:]
         return [1, exc_code(x)]
     try:
-        out = [0] + d.observe()
+        out = [0] + pack(d.observe())
         for op in h['ops'][:upto]:
             r = d.cmd(op[1], op[2]) if op[0] == 'c' else d.tick(op[1])
-            out += [r] + d.observe()
+            out += [r] + pack(d.observe())
         return out
     finally:
         d.close()
@@ -347,8 +354,19 @@ def coq_history(h):
 
 def mk_case(kind, h):
     exp = run_history(h)
-    accepted = sum(1 for k in range(len(h['ops'])) if h['ops'][k][0] == 'c' and len(exp) > 19 + 19 * k and exp[19 + 19 * k] == 0)
+    accepted = sum(1 for k in range(len(h['ops'])) if h['ops'][k][0] == 'c' and len(exp) > 4 + 4 * k and exp[4 + 4 * k] == 0)
     return Case(kind, coq_history(h), exp, key=repr(sorted(h.items())), nontrivial=accepted >= 1, desc=h)
+
+
+def mk_bundle(kind, hs):
+    """several short histories evaluated as one case (their traces concatenated): fewer, larger Coq files"""
+    exp, n_ok = [], 0
+    for h in hs:
+        e = run_history(h)
+        n_ok += sum(1 for k in range(len(h['ops'])) if h['ops'][k][0] == 'c' and len(e) > 4 + 4 * k and e[4 + 4 * k] == 0)
+        exp += e
+    return Case(kind, '(' + ' ++ '.join(coq_history(h) for h in hs) + ')', exp, key=repr([sorted(h.items()) for h in hs]),
+                nontrivial=n_ok >= 1, desc={'bundle': hs})
 
 
 def nvals(clsname):
@@ -411,17 +429,29 @@ def cases(rng, tier):
     wire_classes = WIRE_CLASSES
     for cn in CLASS_NAMES:
         cmds = small_commands(cn)
-        for L in range(0, 3):
+        short = []
+        for L in range(0, 2):
             for seq in itertools.product(cmds, repeat=L):
                 h = base_history(cn, 'direct')
                 h['ops'] = list(seq)
-                out.append(mk_case('exh2-direct', h))
+                short.append(h)
+        out.append(mk_bundle('exh2-direct(bundle of %d)' % len(short), short))
+        for c1 in cmds:
+            hs = []
+            for c2 in cmds:
+                h = base_history(cn, 'direct')
+                h['ops'] = [c1, c2]
+                hs.append(h)
+            out.append(mk_bundle('exh2-direct(bundle of %d)' % len(hs), hs))
         if big or cn in wire_classes:
+            hs = []
             for L in range(1, 3 if big else 2):
                 for seq in itertools.product(cmds, repeat=L):
                     h = base_history(cn, 'wire')
                     h['ops'] = list(seq)
-                    out.append(mk_case('exh-wire', h))
+                    hs.append(h)
+            for k in range(0, len(hs), 16):
+                out.append(mk_bundle('exh-wire(bundle of %d)' % len(hs[k:k + 16]), hs[k:k + 16]))
     # (b) long random sequences over all 16 priorities (+ refused ones), every class, both paths
     for cn in CLASS_NAMES:
         for path in ('direct', 'wire'):
@@ -591,7 +621,7 @@ def direct(rng, tier, focus=()):
             failures.append(f)
 
     # disagreeing correspondence cases first
-    for d in focus:
+    for d in [x for f in focus if isinstance(f, dict) for x in (f['bundle'] if 'bundle' in f else [f])]:
         if isinstance(d, dict) and 'ops' in d:
             hh = dict(d)
             if hh.get('pv') != hh.get('dflt') and hh['cls'] not in BINARY:
@@ -686,6 +716,10 @@ def replay(payload):
                 f = {'history': b['minimal_case'].get('desc')}
     print('replay', {k: v for k, v in (f or {}).items() if k != 'history'})
     h = (f or {}).get('history')
+    if isinstance(h, dict) and 'bundle' in h:
+        for hh in h['bundle']:
+            replay({'failure': {'history': hh}})
+        return
     if not isinstance(h, dict):
         print('no history in payload')
         return
